@@ -76,7 +76,9 @@ def _scenario(draw, tier):
             stalls[str(draw(st.integers(1, 200)))] = draw(st.sampled_from([5.0, 50.0]))
         return dict(mode=mode, cfg=cfg, cost=cost, budget_s=cost * budget_evals, unit=unit,
                     pre_steps=draw(st.sampled_from([0, 0, 3, 150])), jumps=sorted(jumps), stalls=stalls,
-                    repeat=draw(st.sampled_from([1, 1, 2])))
+                    repeat=draw(st.sampled_from([1, 1, 2])),
+                    # coarse clock: readings move in steps of 15.6 ms / 1 ms (two readings around a fast batch are equal)
+                    clock_res=draw(st.sampled_from([0.0, 0.0, 0.0, 0.0156, 0.001])))
     if mode == "pt_advance":
         n = draw(st.sampled_from([1, 2, 3]))
         temps = [1.0]
@@ -97,7 +99,7 @@ def _scenario(draw, tier):
     temps = [1.0]
     for _ in range(n - 1):
         temps.append(round(temps[-1] * draw(st.sampled_from([2.0, 3.0])), 3))
-    cost = draw(st.sampled_from([0.05, 0.3, 2.0, 20.0, 600.0]))  # (600 s per evaluation: budgets beyond a day)
+    cost = draw(st.sampled_from([0.002, 0.05, 0.3, 2.0, 20.0, 600.0]))  # (600 s per evaluation: budgets beyond a day)
     if cost == 600.0 and tier != "thorough":
         # a worker waiting for a slower one polls every 0.05 simulated s: day-long budgets with several chains cost
         # millions of yield points each - quick tier: single-chain ladders only
@@ -110,7 +112,9 @@ def _scenario(draw, tier):
     sc["target"]["d"] = sc["d"]
     return dict(mode=mode, pt=sc, sched=dict(seed=draw(st.integers(0, 2 ** 31 - 1)), stall_p=draw(st.sampled_from([0.0, 0.02])),
                                               long_lat_p=draw(st.sampled_from([0.0, 0.05])), pipe_cap=None,
-                                              speed_spread=draw(st.sampled_from([1.0, 4.0]))))
+                                              speed_spread=draw(st.sampled_from([1.0, 4.0])),
+                                              # coarse clock: a whole swap cycle can fit between two equal readings
+                                              clock_res=draw(st.sampled_from([0.0, 0.0, 0.0156]))))
 
 
 def scenarios(tier):
@@ -301,7 +305,7 @@ def run_timed(sc, V, stats):
     cfg = sc["cfg"]
     c = rctx.new_run(cfg["seed"], record=False)
     seams.seed_global_streams(cfg["seed"])
-    clock = seams.FakeClock()
+    clock = seams.FakeClock(resolution=sc.get("clock_res", 0.0))
     c.clock = clock
     with seams.Seams(clock=clock):
         h = lc.Harnessed(cfg, "s0")
@@ -351,9 +355,9 @@ def run_timed(sc, V, stats):
             if clock.first_read is None:
                 if budget > 0:
                     _viol(V, "timed.exhaust", "run_for(%r) returned without ever reading the clock" % (kw,))
-            elif clock.now < clock.first_read + budget - 1e-9:
+            elif clock.shown < clock.first_read + budget - 1e-9:
                 _viol(V, "timed.exhaust", "%s.run_for(%r) returned after %.6g simulated s, before its budget of %.6g s was used up"
-                      % (h.kind, kw, clock.now - clock.first_read, budget))
+                      % (h.kind, kw, clock.shown - clock.first_read, budget))
             if budget > 0 and n1 - n0 < 1:
                 _viol(V, "timed.progress", "%s.run_for(%r) took no step" % (h.kind, kw))
             allowed = 4 * clock.max_batch_evals + 200 + int(3.0 / sc["cost"])
@@ -414,7 +418,8 @@ def execute(sc):
                 stats["op_pt_run_for"] += 1
                 if budget >= 86400.0:
                     stats["probe_pt_budget_of_a_day_or_more"] += 1
-                if elapsed < budget - 1e-6:
+                # (a program cannot know the time better than its clock shows it: one clock step of slack)
+                if elapsed < budget - 1e-6 - float(sc["sched"].get("clock_res") or 0.0):
                     _viol(V, "timed.exhaust", "ParallelTempering.run_for returned after %.4g simulated s, budget %.4g s" % (elapsed, budget))
             sim_seconds = r["sim_seconds"]
             ev = r["events_digest"]
